@@ -918,6 +918,130 @@ def c16(w):
     return f
 
 
+def _linearizable(ops, present0):
+    """Wing-Gong search for one name: ops = [(b, e, kind, result)], kind in create/delete/get,
+    result True = OK, False = ALREADY_EXISTS (create) / NOT_FOUND (delete, get). Any other result
+    (error statuses of racing calls) is treated as "may or may not have taken effect"."""
+    n = len(ops)
+    if n > 9:
+        return True
+    import itertools
+
+    def ok_order(order):
+        # calls answered with some other error status may or may not have taken effect
+        unknown = [i for i in order if ops[i][3] is None and ops[i][2] != "get"]
+        for mask in range(1 << len(unknown)):
+            took = {i: bool(mask >> k & 1) for k, i in enumerate(unknown)}
+            present = present0
+            good = True
+            for i in order:
+                b, e, kind, res = ops[i]
+                if res is None:
+                    if kind == "create" and took.get(i):
+                        if present:
+                            good = False
+                            break
+                        present = True
+                    elif kind == "delete" and took.get(i):
+                        if not present:
+                            good = False
+                            break
+                        present = False
+                    continue
+                if kind == "create":
+                    if res and present or (not res and not present):
+                        good = False
+                        break
+                    if res:
+                        present = True
+                elif kind == "delete":
+                    if res and not present or (not res and present):
+                        good = False
+                        break
+                    if res:
+                        present = False
+                else:
+                    if res != present:
+                        good = False
+                        break
+            if good:
+                return True
+        return False
+    for order in itertools.permutations(range(n)):
+        pos = {i: k for k, i in enumerate(order)}
+        if any(ops[i][1] < ops[j][0] and pos[i] > pos[j] for i in range(n) for j in range(n) if i != j):
+            continue
+        if ok_order(order):
+            return True
+    return False
+
+
+def c10_conc(w):
+    """Per-name linearizability of create / delete / get on the concurrent call/return history."""
+    f = []
+    names = {}
+    for e in w.evs:
+        if e.op in ("csub", "dsub", "gsub"):
+            n = split_name(unhx(e.args[0]), b"subscriptions")
+            key = ("sub", n)
+        elif e.op in ("ctopic", "dtopic", "gtopic"):
+            n = split_name(unhx(e.args[0]), b"topics")
+            key = ("topic", n)
+        else:
+            continue
+        if n is None:
+            continue
+        code = e.ans.split(" ")[0]
+        kind = {"c": "create", "d": "delete", "g": "get"}[e.op[0]]
+        if code == "ok":
+            res = True
+        elif (kind == "create" and code == "already_exists") or (kind != "create" and code == "not_found"):
+            res = False
+        else:
+            res = None
+        if e.op == "csub" and code == "not_found":
+            res = None            # topic missing: says nothing about the subscription name
+        names.setdefault(key, []).append((e.b, e.e, kind, res))
+    for key, ops in names.items():
+        if not _linearizable(ops, False):
+            f.append(("c10:not-linearizable:%s" % key[0], "the calls on %s name %r admit no sequential order: %s" % (key[0], key[1], [(k, r) for (_, _, k, r) in ops])))
+    return f
+
+
+def c11_conc(w):
+    """At the final quiescent moment: ListTopicSubscriptions of each live topic = the live
+    subscriptions created on it; every existing subscription of a live topic receives."""
+    f = []
+    go = [x.i for x in w.evs if x.op == "go"]
+    if not go:
+        return f
+    after = [x for x in w.evs if x.i > go[-1]]
+    existing = None
+    for x in after:
+        if x.op == "wsubs" and x.ans.startswith("ok"):
+            existing = {}
+            for pg in x.ans.split(" | "):
+                for it in sl(pg.split(" ")[1], ","):
+                    fs = it.split("/")
+                    existing[split_name(unhx(fs[0]), b"subscriptions")] = unhx(fs[1])
+    if existing is None:
+        return f
+    for x in after:
+        if x.op == "wtsubs" and x.ans.startswith("ok"):
+            topic_raw = unhx(x.args[0])
+            listed = set()
+            for pg in x.ans.split(" | "):
+                listed.update(split_name(unhx(n), b"subscriptions") for n in sl(pg.split(" ")[1], ","))
+            on_topic = set(n for n, t in existing.items() if t == topic_raw)
+            if listed - set(existing):
+                f.append(("c11:listed-not-live", "topic %r lists %r which does not exist" % (topic_raw, sorted(listed - set(existing)))))
+            if on_topic - listed:
+                f.append(("c11:live-not-listed", "topic %r does not list its live subscription(s) %r" % (topic_raw, sorted(on_topic - listed))))
+            if (listed & set(existing)) - on_topic:
+                f.append(("c11:listed-on-wrong-topic", "topic %r lists %r which report another topic" % (topic_raw, sorted((listed & set(existing)) - on_topic))))
+    return f
+
+
 SEQ_ORACLES = {"C01": c01, "C02": c02, "C03": c03, "C04": c04, "C08": c08, "C09": c09, "C10": c10, "C11": c11,
                "C13": c13, "C15": c15, "C17": c17,
                "C06": c06, "C07": c07, "C12": c12, "C16": c16}
@@ -927,6 +1051,10 @@ def run_seq_oracle(prop, ops, answers, sides, conc=False):
     evs = history(ops, answers, sides, conc)
     fails = generic(evs)
     fn = SEQ_ORACLES.get(prop)
+    if conc and prop == "C10":
+        fn = c10_conc
+    if conc and prop == "C11":
+        fn = c11_conc
     if fn is not None:
         w = World(evs)
         w.conc = conc
